@@ -47,6 +47,11 @@ impl Watcher {
 	) -> Result<Box<dyn notify::Watcher + Send>, CriticalError> {
 		use notify::{Config, Watcher as _};
 
+		#[cfg(watchexec_verif)]
+		if let Some(factory) = verif::factory() {
+			return factory(self, Box::new(f));
+		}
+
 		match self {
 			Self::Native => {
 				notify::RecommendedWatcher::new(f, Config::default()).map(|w| Box::new(w) as _)
@@ -120,6 +125,8 @@ pub async fn worker(
 	loop {
 		config_watch.next().await;
 		trace!("filesystem worker got a config change");
+		#[cfg(watchexec_verif)]
+		watchexec_supervisor::verif::emit("fs_wake", 0, 0);
 
 		if config.pathset.get().is_empty() {
 			trace!(
@@ -130,10 +137,14 @@ pub async fn worker(
 					"no more watched paths, dropping watcher"
 				}
 			);
+			#[cfg(watchexec_verif)]
+			watchexec_supervisor::verif::emit("fs_release", usize::from(watcher.is_some()), 0);
 			watcher.take();
 			pathset.clear();
 			continue;
 		}
+		#[cfg(watchexec_verif)]
+		watchexec_supervisor::verif::emit("fs_nonempty", 0, 0);
 
 		// now we know the watcher should be alive, so let's start it if it's not already:
 
@@ -152,6 +163,9 @@ pub async fn worker(
 				})
 				.map(Some)?;
 		}
+
+		#[cfg(watchexec_verif)]
+		watchexec_supervisor::verif::emit("fs_kind", 0, 0);
 
 		// now let's calculate which paths we should add to the watch, and which we should drop:
 
@@ -186,6 +200,8 @@ pub async fn worker(
 		};
 
 		debug!(?to_watch, ?to_drop, "applying changes to the watcher");
+		#[cfg(watchexec_verif)]
+		watchexec_supervisor::verif::emit("fs_plan", to_watch.len(), to_drop.len());
 
 		for path in to_drop {
 			trace!(?path, "removing path from the watcher");
@@ -301,4 +317,36 @@ fn process_event(
 		})?;
 
 	Ok(())
+}
+
+/// Substitution of the OS watcher for external conformance checking.
+///
+/// Only compiled with `--cfg watchexec_verif`. When a factory is installed for the current thread,
+/// [`Watcher::create`] hands it the watcher kind and the event callback instead of creating a
+/// `notify` watcher.
+#[cfg(watchexec_verif)]
+#[allow(missing_docs, clippy::missing_panics_doc)]
+pub mod verif {
+	use std::{cell::RefCell, sync::Arc};
+
+	use crate::error::CriticalError;
+
+	pub type Handler = Box<dyn notify::EventHandler>;
+	pub type Factory = Arc<
+		dyn Fn(super::Watcher, Handler) -> Result<Box<dyn notify::Watcher + Send>, CriticalError>
+			+ Send
+			+ Sync,
+	>;
+
+	thread_local! {
+		static FACTORY: RefCell<Option<Factory>> = const { RefCell::new(None) };
+	}
+
+	pub fn set_factory(factory: Option<Factory>) {
+		FACTORY.with(|f| *f.borrow_mut() = factory);
+	}
+
+	pub fn factory() -> Option<Factory> {
+		FACTORY.with(|f| f.borrow().clone())
+	}
 }
